@@ -219,7 +219,8 @@ pub struct Ctrl {
     pub yc: u32,
     pub entry: u8,
     pub update_ctrl2: u8,
-    pub windows_programmed: Vec<(u32, u32, u32, u32, u32)>, // opidx, xs, xe, ys, ye at each RAM write start
+    /// at each RAM write command: (opidx, xs, xe, ys, ye, xc, yc, ram opcode)
+    pub windows_programmed: Vec<(u32, u32, u32, u32, u32, u32, u32, u8)>,
     // --- UC addressing
     pub partial_mode: bool,
     pub pwin: (u32, u32, u32, u32), // hrst, hred, vrst, vred (pixels, inclusive)
@@ -542,7 +543,7 @@ impl Ctrl {
                 if self.busy.refresh_active() {
                     // flagged per data byte below; nothing here
                 }
-                self.windows_programmed.push((self.opidx, self.xs, self.xe, self.ys, self.ye));
+                self.windows_programmed.push((self.opidx, self.xs, self.xe, self.ys, self.ye, self.xc, self.yc, op));
                 self.data_bytes_cur = 0;
             }
             _ => {}
